@@ -8,6 +8,7 @@ package main
 
 import (
 	"context"
+	"encoding/json"
 	"errors"
 	"fmt"
 	"io"
@@ -15,6 +16,7 @@ import (
 	"net/http/httptest"
 	"net/textproto"
 	"os"
+	"os/exec"
 	"sort"
 	"strings"
 	"sync"
@@ -259,10 +261,11 @@ func initOne(colon bool, ep, be string) (accepted bool, kind string, e *config.E
 // route cases
 
 type routeSpec struct {
-	segs []tok    // endpoint segments after the unique prefix segment
-	be   []tok    // backend url_pattern tokens
-	be2  []tok    // url_pattern of a second backend of the same endpoint (nil: one backend)
-	vals []string // one value per parameter of the endpoint, in order
+	segs []tok      // endpoint segments after the unique prefix segment
+	be   []tok      // backend url_pattern tokens
+	be2  []tok      // url_pattern of a second backend of the same endpoint (nil: one backend)
+	more [][]string // further value vectors sent on the same route through the same router instance
+	vals []string   // one value per parameter of the endpoint, in order
 	tag  string
 }
 
@@ -281,8 +284,62 @@ func robsCoq(paths []string, status int, panicked bool) (string, interface{}) {
 	return emit.App("ONotRouted", emit.Z(int64(status))), map[string]interface{}{"backend_calls": len(paths), "status": status}
 }
 
-// runRoutes serves every spec under every adapter (batched: one router per adapter and
-// batch of endpoints) and emits the cases in spec order, adapters innermost.
+// steps: the value vectors sent on the spec's route, in order (vals, then more...)
+func (s routeSpec) steps() [][]string { return append([][]string{s.vals}, s.more...) }
+
+func requestPath(prefix string, segs []tok, vals []string) string {
+	path := prefix
+	vi := 0
+	for _, t := range segs {
+		if t.ph {
+			path += "/" + vals[vi]
+			vi++
+		} else {
+			path += "/" + t.s
+		}
+	}
+	return path
+}
+
+// buildBatch initialises one service with every accepted endpoint of the chunk (prefix /e<i>)
+// and registers it in ONE router instance of the adapter.
+func buildBatch(ad adapter, chunk []routeSpec, eptoks [][]tok, bf proxy.BackendFactory) (acc []bool, kinds []string, h http.Handler, perr interface{}) {
+	acc = make([]bool, len(chunk))
+	kinds = make([]string, len(chunk))
+	var eps []*config.EndpointConfig
+	for i, s := range chunk {
+		acc[i], kinds[i], _ = initOne(ad.colon, renderEp(eptoks[i]), render(s.be))
+		if acc[i] && s.be2 != nil {
+			acc[i], kinds[i], _ = initOne(ad.colon, renderEp(eptoks[i]), render(s.be2))
+		}
+		if acc[i] && s.be2 != nil {
+			eps = append(eps, newEndpoint2(renderEp(eptoks[i]), render(s.be), render(s.be2)))
+		} else if acc[i] {
+			eps = append(eps, newEndpoint(renderEp(eptoks[i]), render(s.be)))
+		}
+	}
+	setMode(ad.colon)
+	sc := newService(eps)
+	if err := sc.Init(); err != nil {
+		return acc, kinds, nil, err
+	}
+	h, perr = buildHandler(ad.name, sc, proxy.NewDefaultFactory(bf, logging.NoOp))
+	return acc, kinds, h, perr
+}
+
+func chunkEpToks(chunk []routeSpec) [][]tok {
+	eptoks := make([][]tok, len(chunk))
+	for i, s := range chunk {
+		eptoks[i] = epToks(append([]tok{lit(fmt.Sprintf("e%d", i))}, s.segs...))
+	}
+	return eptoks
+}
+
+// runRoutes serves every spec under every adapter (batched: ONE router instance per adapter
+// and batch of endpoints) and emits the cases in spec order, adapters and then steps innermost.
+// The requests go through the shared instance step-major: first vector of every route, then
+// the second vector of every route that has one, ... - so consecutive requests alternate
+// between routes and every route is hit again with different segment values.
 func (g *gen) runRoutes(specs []routeSpec, stream string) {
 	const batch = 150
 	for lo := 0; lo < len(specs); lo += batch {
@@ -297,103 +354,282 @@ func (g *gen) runRoutes(specs []routeSpec, stream string) {
 			term2 string
 			js2   interface{}
 		}
-		results := make([][]res, len(chunk))
-		for i := range results {
-			results[i] = make([]res, len(adapters))
-		}
-		eptoks := make([][]tok, len(chunk))
+		results := make([][][]res, len(chunk)) // spec, adapter, step
+		maxSteps := 0
 		for i, s := range chunk {
-			eptoks[i] = epToks(append([]tok{lit(fmt.Sprintf("e%d", i))}, s.segs...))
+			results[i] = make([][]res, len(adapters))
+			for ai := range adapters {
+				results[i][ai] = make([]res, len(s.steps()))
+			}
+			if len(s.steps()) > maxSteps {
+				maxSteps = len(s.steps())
+			}
 		}
+		eptoks := chunkEpToks(chunk)
 		for ai, ad := range adapters {
-			// which endpoints does Init accept (one by one)?
-			acc := make([]bool, len(chunk))
-			kinds := make([]string, len(chunk))
-			var eps []*config.EndpointConfig
-			for i, s := range chunk {
-				acc[i], kinds[i], _ = initOne(ad.colon, renderEp(eptoks[i]), render(s.be))
-				if acc[i] && s.be2 != nil {
-					acc[i], kinds[i], _ = initOne(ad.colon, renderEp(eptoks[i]), render(s.be2))
-				}
-				if acc[i] && s.be2 != nil {
-					eps = append(eps, newEndpoint2(renderEp(eptoks[i]), render(s.be), render(s.be2)))
-				} else if acc[i] {
-					eps = append(eps, newEndpoint(renderEp(eptoks[i]), render(s.be)))
-				}
-			}
-			setMode(ad.colon)
-			sc := newService(eps)
 			cap := &capture{}
-			var h http.Handler
-			var perr interface{}
-			if err := sc.Init(); err != nil {
-				perr = err
-			} else {
-				h, perr = buildHandler(ad.name, sc, proxy.NewDefaultFactory(cap.backendFactory(), logging.NoOp))
-			}
-			for i, s := range chunk {
-				if !acc[i] {
-					results[i][ai] = res{emit.App("ORejected"), map[string]interface{}{"init": kinds[i]}, emit.App("ORejected"), map[string]interface{}{"init": kinds[i]}}
-					continue
-				}
-				if perr != nil || h == nil {
-					results[i][ai] = res{"OPanic", map[string]interface{}{"router_build": fmt.Sprint(perr)}, "OPanic", map[string]interface{}{"router_build": fmt.Sprint(perr)}}
-					continue
-				}
-				path := fmt.Sprintf("/e%d", i)
-				vi := 0
-				for _, t := range s.segs {
-					if t.ph {
-						path += "/" + s.vals[vi]
-						vi++
-					} else {
-						path += "/" + t.s
+			acc, kinds, h, perr := buildBatch(ad, chunk, eptoks, cap.backendFactory())
+			for k := 0; k < maxSteps; k++ {
+				for i, s := range chunk {
+					st := s.steps()
+					if k >= len(st) {
+						continue
 					}
-				}
-				cap.reset()
-				rec := httptest.NewRecorder()
-				panicked := false
-				func() {
-					defer func() {
-						if r := recover(); r != nil {
-							panicked = true
-						}
+					if !acc[i] {
+						results[i][ai][k] = res{emit.App("ORejected"), map[string]interface{}{"init": kinds[i]}, emit.App("ORejected"), map[string]interface{}{"init": kinds[i]}}
+						continue
+					}
+					if perr != nil || h == nil {
+						results[i][ai][k] = res{"OPanic", map[string]interface{}{"router_build": fmt.Sprint(perr)}, "OPanic", map[string]interface{}{"router_build": fmt.Sprint(perr)}}
+						continue
+					}
+					path := requestPath(fmt.Sprintf("/e%d", i), s.segs, st[k])
+					cap.reset()
+					rec := httptest.NewRecorder()
+					panicked := false
+					func() {
+						defer func() {
+							if r := recover(); r != nil {
+								panicked = true
+							}
+						}()
+						h.ServeHTTP(rec, httptest.NewRequest("GET", path, nil))
 					}()
-					h.ServeHTTP(rec, httptest.NewRequest("GET", path, nil))
-				}()
-				if s.be2 != nil {
-					t, js := robsCoq(cap.byHost("h0.test"), rec.Code, panicked)
-					t2, js2 := robsCoq(cap.byHost("h1.test"), rec.Code, panicked)
-					results[i][ai] = res{t, map[string]interface{}{"request": path, "result": js, "backend": 0}, t2, map[string]interface{}{"request": path, "result": js2, "backend": 1}}
-					continue
+					if s.be2 != nil {
+						t, js := robsCoq(cap.byHost("h0.test"), rec.Code, panicked)
+						t2, js2 := robsCoq(cap.byHost("h1.test"), rec.Code, panicked)
+						results[i][ai][k] = res{t, map[string]interface{}{"request": path, "result": js, "backend": 0, "step": k}, t2, map[string]interface{}{"request": path, "result": js2, "backend": 1, "step": k}}
+						continue
+					}
+					t, js := robsCoq(cap.get(), rec.Code, panicked)
+					results[i][ai][k] = res{t, map[string]interface{}{"request": path, "result": js, "step": k}, "", nil}
 				}
-				t, js := robsCoq(cap.get(), rec.Code, panicked)
-				results[i][ai] = res{t, map[string]interface{}{"request": path, "result": js}, "", nil}
 			}
 		}
 		for i, s := range chunk {
 			for ai, ad := range adapters {
-				ept, bet := renderEp(eptoks[i]), render(s.be)
-				term := emit.App("CRoute", ad.name, toksCoq(eptoks[i]), toksCoq(s.be), emit.Str(ept), emit.Str(bet), emit.StrList(s.vals), results[i][ai].term)
-				js := map[string]interface{}{"kind": "route", "stream": stream, "adapter": ad.name, "endpoint": ept, "url_pattern": bet,
-					"values": s.vals, "observed": results[i][ai].js, "tag": s.tag}
-				ps := params(s.segs)
-				g.w.Count("route:" + stream)
-				g.w.Count(fmt.Sprintf("route:params=%d", len(ps)))
-				g.w.Count("route:adapter:" + ad.name)
-				canon := fmt.Sprintf("R|%s|%s|%s|%s", ad.name, renderEp(s.segs), bet, strings.Join(s.vals, "/"))
-				g.w.Add(term, js, "", canon, len(ps) > 0 && len(params(s.be)) > 0)
-				if s.be2 != nil {
-					bet2 := render(s.be2)
-					term2 := emit.App("CRoute", ad.name, toksCoq(eptoks[i]), toksCoq(s.be2), emit.Str(ept), emit.Str(bet2), emit.StrList(s.vals), results[i][ai].term2)
-					js2 := map[string]interface{}{"kind": "route", "stream": stream, "adapter": ad.name, "endpoint": ept, "url_pattern": bet2,
-						"sibling_url_pattern": bet, "values": s.vals, "observed": results[i][ai].js2, "tag": s.tag}
-					g.w.Count("route:second-backend")
-					g.w.Add(term2, js2, "", canon+"|2|"+bet2, len(ps) > 0 && len(params(s.be2)) > 0)
+				for k, vals := range s.steps() {
+					r := results[i][ai][k]
+					ept, bet := renderEp(eptoks[i]), render(s.be)
+					term := emit.App("CRoute", ad.name, toksCoq(eptoks[i]), toksCoq(s.be), emit.Str(ept), emit.Str(bet), emit.StrList(vals), r.term)
+					js := map[string]interface{}{"kind": "route", "stream": stream, "adapter": ad.name, "endpoint": ept, "url_pattern": bet,
+						"values": vals, "observed": r.js, "tag": s.tag}
+					ps := params(s.segs)
+					g.w.Count("route:" + stream)
+					g.w.Count(fmt.Sprintf("route:params=%d", len(ps)))
+					g.w.Count("route:adapter:" + ad.name)
+					if k > 0 {
+						g.w.Count("route:same-instance-same-route-again")
+					}
+					canon := fmt.Sprintf("R|%s|%s|%s|%s", ad.name, renderEp(s.segs), bet, strings.Join(vals, "/"))
+					g.w.Add(term, js, "", canon, len(ps) > 0 && len(params(s.be)) > 0)
+					if s.be2 != nil {
+						bet2 := render(s.be2)
+						term2 := emit.App("CRoute", ad.name, toksCoq(eptoks[i]), toksCoq(s.be2), emit.Str(ept), emit.Str(bet2), emit.StrList(vals), r.term2)
+						js2 := map[string]interface{}{"kind": "route", "stream": stream, "adapter": ad.name, "endpoint": ept, "url_pattern": bet2,
+							"sibling_url_pattern": bet, "values": vals, "observed": r.js2, "tag": s.tag}
+						g.w.Count("route:second-backend")
+						g.w.Add(term2, js2, "", canon+"|2|"+bet2, len(ps) > 0 && len(params(s.be2)) > 0)
+					}
 				}
 			}
 		}
 	}
+}
+
+// ---------------------------------------------------------------------------------------
+// concurrent reuse: ONE router instance per adapter hit from several goroutines.  It runs in
+// a child process, because the typical failure (a map shared between requests) is a fatal
+// runtime error that cannot be recovered; a crashed child is reported as OPanic cases.
+
+func concurrentSpecs() []routeSpec {
+	return []routeSpec{
+		{segs: []tok{ph("userId"), ph("order-id")}, be: []tok{lit("/b/"), ph("order-id"), lit("/of/"), ph("userId")},
+			vals: []string{"u1", "o1"}, more: [][]string{{"u2", "o2"}, {"o1", "u1"}, {"U-3", "o_3"}}, tag: "concurrent"},
+		{segs: []tok{lit("k"), ph("userId")}, be: []tok{lit("/u/"), ph("userId"), lit("/x/"), ph("userId")},
+			vals: []string{"a"}, more: [][]string{{"b"}, {"u1"}, {"~c.d"}}, tag: "concurrent"},
+		{segs: []tok{ph("a"), lit("m"), ph("B_b")}, be: []tok{lit("/"), ph("B_b"), ph("a")},
+			vals: []string{"1", "2"}, more: [][]string{{"2", "1"}, {"x", "y"}, {"y", "x"}}, tag: "concurrent"},
+	}
+}
+
+type concObs struct {
+	Adapter string `json:"adapter"`
+	Spec    int    `json:"spec"`
+	Step    int    `json:"step"`
+	Kind    string `json:"kind"` // path | status | panic
+	Path    string `json:"path"`
+	Status  int    `json:"status"`
+}
+
+// echoFactory: the backend answers with the path it was called with, so that every client
+// request learns what ITS backend call looked like
+func echoFactory() proxy.BackendFactory {
+	exec := func(_ context.Context, req *http.Request) (*http.Response, error) {
+		b, _ := json.Marshal(map[string]string{"path": req.URL.Path})
+		return &http.Response{StatusCode: 200, Header: http.Header{"Content-Type": []string{"application/json"}},
+			Body: io.NopCloser(strings.NewReader(string(b)))}, nil
+	}
+	return func(be *config.Backend) proxy.Proxy {
+		return proxy.NewHTTPProxyWithHTTPExecutor(be, exec, be.Decoder)
+	}
+}
+
+func concurrentChild(dir string) {
+	specs := concurrentSpecs()
+	eptoks := chunkEpToks(specs)
+	type input struct{ spec, step int }
+	var inputs []input
+	for i, s := range specs {
+		for k := range s.steps() {
+			inputs = append(inputs, input{i, k})
+		}
+	}
+	const goroutines, iterations = 12, 40
+	var all []concObs
+	for _, ad := range adapters {
+		acc, _, h, perr := buildBatch(ad, specs, eptoks, echoFactory())
+		if perr != nil || h == nil {
+			for _, in := range inputs {
+				all = append(all, concObs{ad.name, in.spec, in.step, "panic", fmt.Sprint(perr), 0})
+			}
+			continue
+		}
+		seen := make([]map[concObs]bool, goroutines)
+		start := make(chan struct{})
+		var wg sync.WaitGroup
+		for gi := 0; gi < goroutines; gi++ {
+			seen[gi] = map[concObs]bool{}
+			wg.Add(1)
+			go func(gi int) {
+				defer wg.Done()
+				<-start
+				for k := 0; k < iterations*len(inputs); k++ {
+					in := inputs[(gi*5+k)%len(inputs)]
+					if !acc[in.spec] {
+						seen[gi][concObs{ad.name, in.spec, in.step, "rejected", "", 0}] = true
+						continue
+					}
+					s := specs[in.spec]
+					path := requestPath(fmt.Sprintf("/e%d", in.spec), s.segs, s.steps()[in.step])
+					o := concObs{Adapter: ad.name, Spec: in.spec, Step: in.step}
+					func() {
+						defer func() {
+							if r := recover(); r != nil {
+								o.Kind = "panic"
+							}
+						}()
+						rec := httptest.NewRecorder()
+						h.ServeHTTP(rec, httptest.NewRequest("GET", path, nil))
+						var body map[string]interface{}
+						if p, ok := "", false; rec.Code == 200 && json.Unmarshal(rec.Body.Bytes(), &body) == nil {
+							if p, ok = body["path"].(string); ok {
+								o.Kind, o.Path = "path", p
+							}
+						}
+						if o.Kind == "" {
+							o.Kind, o.Status = "status", rec.Code
+						}
+					}()
+					seen[gi][o] = true
+				}
+			}(gi)
+		}
+		close(start)
+		wg.Wait()
+		merged := map[concObs]bool{}
+		for _, m := range seen {
+			for o := range m {
+				merged[o] = true
+			}
+		}
+		var list []concObs
+		for o := range merged {
+			list = append(list, o)
+		}
+		sort.Slice(list, func(i, j int) bool {
+			a, b := list[i], list[j]
+			if a.Spec != b.Spec {
+				return a.Spec < b.Spec
+			}
+			if a.Step != b.Step {
+				return a.Step < b.Step
+			}
+			if a.Kind != b.Kind {
+				return a.Kind < b.Kind
+			}
+			if a.Path != b.Path {
+				return a.Path < b.Path
+			}
+			return a.Status < b.Status
+		})
+		all = append(all, list...)
+	}
+	b, _ := json.Marshal(all)
+	if err := os.WriteFile(dir+"/c09_concurrent.json", b, 0o644); err != nil {
+		fmt.Fprintln(os.Stderr, err)
+		os.Exit(1)
+	}
+}
+
+// runConcurrent starts the child, reads what it saw and emits one case per distinct
+// (adapter, input, observation).
+func (g *gen) runConcurrent() {
+	specs := concurrentSpecs()
+	eptoks := chunkEpToks(specs)
+	file := g.cfg.Dir + "/c09_concurrent.json"
+	os.Remove(file)
+	ctx, cancel := context.WithTimeout(context.Background(), 5*time.Minute)
+	defer cancel()
+	cmd := exec.CommandContext(ctx, os.Args[0], "--out", g.cfg.Dir, "--tier", g.cfg.Tier, "--seed", fmt.Sprint(g.cfg.Seed), "--extra", "c09-concurrent-child")
+	outb, err := cmd.CombinedOutput()
+	var obs []concObs
+	crash := ""
+	if err != nil {
+		crash = fmt.Sprintf("child: %v: %s", err, firstLines(string(outb), 6))
+	} else if b, rerr := os.ReadFile(file); rerr != nil || json.Unmarshal(b, &obs) != nil {
+		crash = "child wrote no result"
+	}
+	if crash != "" {
+		// the shared instances did not survive concurrent use: one failing case per adapter and input
+		obs = nil
+		for _, ad := range adapters {
+			for i, s := range specs {
+				for k := range s.steps() {
+					obs = append(obs, concObs{ad.name, i, k, "panic", crash, 0})
+				}
+			}
+		}
+	}
+	for _, o := range obs {
+		s := specs[o.Spec]
+		vals := s.steps()[o.Step]
+		var t string
+		switch o.Kind {
+		case "path":
+			t = emit.App("OPath", emit.Str(o.Path))
+		case "rejected":
+			t = "ORejected"
+		case "status":
+			t = emit.App("ONotRouted", emit.Z(int64(o.Status)))
+		default:
+			t = "OPanic"
+		}
+		ept, bet := renderEp(eptoks[o.Spec]), render(s.be)
+		term := emit.App("CRoute", o.Adapter, toksCoq(eptoks[o.Spec]), toksCoq(s.be), emit.Str(ept), emit.Str(bet), emit.StrList(vals), t)
+		js := map[string]interface{}{"kind": "route", "stream": "concurrent-reuse", "adapter": o.Adapter, "endpoint": ept, "url_pattern": bet,
+			"values": vals, "observed": o, "tag": s.tag, "goroutines": 12}
+		g.w.Count("route:concurrent-reuse")
+		g.w.Add(term, js, "", fmt.Sprintf("RC|%s|%s|%s|%s|%s|%s", o.Adapter, ept, bet, strings.Join(vals, "/"), o.Kind, o.Path), true)
+	}
+}
+
+func firstLines(s string, n int) string {
+	ls := strings.Split(s, "\n")
+	if len(ls) > n {
+		ls = ls[:n]
+	}
+	return strings.Join(ls, " | ")
 }
 
 // ---------------------------------------------------------------------------------------
@@ -508,6 +744,14 @@ var corpusNames = []string{"id", "userId", "user-id", "user_id", "1abc", "A", "a
 
 func main() {
 	cfg := out.ParseFlags("C09")
+	if cfg.Extra == "c09-concurrent-child" {
+		if devnull, err := os.OpenFile(os.DevNull, os.O_WRONLY, 0); err == nil {
+			os.Stdout = devnull
+		}
+		gin.SetMode(gin.ReleaseMode)
+		concurrentChild(cfg.Dir)
+		return
+	}
 	if devnull, err := os.OpenFile(os.DevNull, os.O_WRONLY, 0); err == nil {
 		os.Stdout = devnull // negroni.Classic logs every request to stdout
 	}
@@ -541,6 +785,21 @@ func main() {
 		routeSpec{segs: []tok{ph("a"), ph("b")}, be: []tok{lit("/x/"), ph("b")}, be2: []tok{lit("/x/"), ph("a")}, vals: []string{"1", "2"}, tag: "two-backends"},
 	)
 	g.runRoutes(specs, "corpus")
+
+	// ---- 1b. instance reuse: ONE router instance per adapter serves the whole sequence -------
+	// (step-major: every route once, then every route again with other values, ...)
+	specs = []routeSpec{
+		{segs: []tok{ph("userId")}, be: []tok{lit("/b/"), ph("userId"), lit("/y")}, vals: []string{"A"}, more: [][]string{{"B"}, {"A"}, {"C-c"}, {"UserId"}}, tag: "reuse-same-route"},
+		{segs: []tok{ph("userId"), ph("order-id")}, be: []tok{lit("/b/"), ph("order-id"), lit("/"), ph("userId")}, vals: []string{"u1", "o2"}, more: [][]string{{"o2", "u1"}, {"u1", "u1"}, {"x", "y"}}, tag: "reuse-swapped-values"},
+		// same parameter names and same url_pattern on two routes: a cache keyed by the pattern shows
+		{segs: []tok{lit("p"), ph("id")}, be: []tok{lit("/b/"), ph("id")}, vals: []string{"p1"}, more: [][]string{{"p2"}, {"p3"}}, tag: "reuse-twin-routes"},
+		{segs: []tok{lit("q"), ph("id")}, be: []tok{lit("/b/"), ph("id")}, vals: []string{"q1"}, more: [][]string{{"q2"}, {"q3"}}, tag: "reuse-twin-routes"},
+		{segs: []tok{ph("a"), ph("b")}, be: []tok{lit("/x/"), ph("b")}, be2: []tok{lit("/x/"), ph("a"), ph("b")}, vals: []string{"1", "2"}, more: [][]string{{"2", "1"}, {"3", "4"}}, tag: "reuse-two-backends"},
+		{segs: []tok{ph("a"), lit("s")}, be: []tok{lit("/static")}, vals: []string{"v"}, more: [][]string{{"w"}}, tag: "reuse-unused-param"},
+		{segs: []tok{ph("a"), lit("t")}, be: []tok{lit("/"), ph("a"), ph("a")}, vals: []string{"long-value-0123456789"}, more: [][]string{{"s"}, {"long-value-0123456789"}, {"_"}}, tag: "reuse-long-then-short"},
+	}
+	g.runRoutes(specs, "reuse")
+	g.runConcurrent()
 
 	for _, colon := range []bool{true, false} {
 		g.initCase(colon, epToks([]tok{lit("u"), ph("userId")}), []tok{lit("/b/"), ph("userId")}, "corpus")
@@ -769,7 +1028,22 @@ func main() {
 				be2 = append(be2, lit("/"), ph(names[r.Intn(len(names))]))
 			}
 		}
-		specs = append(specs, routeSpec{segs: segs, be: be, be2: be2, vals: vals, tag: "random"})
+		var more [][]string
+		if i%4 == 0 {
+			// the same route again, through the same router instance, with other values
+			for j := 2 + r.Intn(3); j > 0; j-- {
+				vs := make([]string, len(vals))
+				for x := range vs {
+					if r.Chance(1, 4) {
+						vs[x] = vals[(x+1)%len(vals)] // a value another parameter had before
+					} else {
+						vs[x] = randValue(r)
+					}
+				}
+				more = append(more, vs)
+			}
+		}
+		specs = append(specs, routeSpec{segs: segs, be: be, be2: be2, vals: vals, more: more, tag: "random"})
 	}
 	g.runRoutes(specs, "random")
 
@@ -813,5 +1087,5 @@ func main() {
 		g.initRaw(r.Bool(), mk(1+r.Intn(6)), mk(1+r.Intn(6)), "malformed")
 	}
 
-	w.Close("corpus (30 names x 5 adapters, collisions, raw patterns) -> library casers vs ASCII models (all names of length <= 4 (thorough 5) over abAB01-_zZ9, all 256 single bytes) -> every name of length <= 4 (thorough 6) over {a,B,1,-,_} routed under each of the 5 adapters; 0..4 parameters with every sequence of <= 3 uses; declared x used subsets of {a,A,b,ab} through Init in both routing modes -> random names over the whole grammar, 1-4 parameters, random url_pattern shapes, unreserved values -> malformed raw patterns through Init; nontrivial = a parameter is declared and used (route) / Init rejects (init)", true)
+	w.Close("corpus (30 names x 5 adapters, collisions, raw patterns) -> instance reuse (one router instance per adapter: 3-5 different value vectors per route, routes alternating; 12 goroutines x 40 rounds over 12 inputs per adapter, distinct (input, observation) pairs) -> library casers vs ASCII models (all names of length <= 4 (thorough 5) over abAB01-_zZ9, all 256 single bytes) -> every name of length <= 4 (thorough 6) over {a,B,1,-,_} routed under each of the 5 adapters; 0..4 parameters with every sequence of <= 3 uses; declared x used subsets of {a,A,b,ab} through Init in both routing modes -> random names over the whole grammar, 1-4 parameters, random url_pattern shapes, unreserved values -> malformed raw patterns through Init; nontrivial = a parameter is declared and used (route) / Init rejects (init)", true)
 }
